@@ -8,7 +8,7 @@
    What the reader yields for damaged files (missing / wrong size) is the subject
    of C10/C20 and enters here as the item list. *)
 From Coq Require Import Lia.
-From Torf Require Import Base Extracted Corrupt CorruptProofs Pipeline PipelineProofs FlowProofs PipeExplore PipeExploreProofs PipeConfigs VerifyTrueProofs VerifyFalseProofs.
+From Torf Require Import Base Extracted Corrupt CorruptProofs Pipeline PipelineProofs FlowProofs PipeExplore PipeExploreProofs PipeConfigs VerifyTrueProofs VerifyFalseProofs ThreadProofs DeadlockProofs ConservationProofs ReaderDoneProofs DrainProofs CompleteProofs.
 Open Scope Z_scope.
 
 (* a changed byte at stream position p inside file k: the content error for piece p / L names file k *)
@@ -60,13 +60,23 @@ Theorem C02_false_on_intact_is_incomplete : forall c s expd,
 Proof. exact verify_false_on_intact_is_incomplete. Qed.
 Print Assumptions C02_false_on_intact_is_incomplete.
 
+(* UNBOUNDED: ... and such a run was told to stop: verification of intact, fully readable content returns False only
+   when a callback cancelled it (the stop flag of the reader is set) -- under every schedule, with any number of
+   hashers, any out-of-memory handling and any clock.  (Conservation of pieces + drained pipeline at a verdict +
+   the reader read everything: proofs/ConservationProofs.v, DrainProofs.v, ReaderDoneProofs.v, CompleteProofs.v.) *)
+Theorem C02_false_on_intact_means_stopped : forall c s expd,
+  (1 <= cf_hashers c)%nat -> reach c s -> cf_verify c = Some expd ->
+  yielded (cf_items c) = map RPiece expd -> s_result s = Some ResFalse -> s_stop s = true.
+Proof. exact verify_false_on_intact_means_stopped. Qed.
+Print Assumptions C02_false_on_intact_means_stopped.
+
 (* non-vacuity: 40 intact pieces, one hasher, a callback that cancels at the first report: the run is reachable,
    returns False and has collected 4 hashes *)
 Definition C02_hs := map Z.of_nat (seq 1 40).
 Definition C02_cancel := mk (map RPiece C02_hs) 40 1 (CbCancelFrom 1) [] (Some C02_hs).
 Example C02_false_on_intact_example :
   let s := auto_run 3000 C02_cancel (init C02_cancel) in
-  reach C02_cancel s /\ yielded (cf_items C02_cancel) = map RPiece C02_hs /\ s_result s = Some ResFalse /\ length (s_hashes s) = 4%nat.
+  reach C02_cancel s /\ yielded (cf_items C02_cancel) = map RPiece C02_hs /\ s_result s = Some ResFalse /\ length (s_hashes s) = 4%nat /\ s_stop s = true.
 Proof. split; [apply auto_run_reach; constructor|vm_compute; repeat split; reflexivity]. Qed.
 
 (* under every schedule: intact content verifies; a corrupt piece gives a content error without callback
